@@ -61,7 +61,7 @@ pub fn stark_verify<Layout: LayoutTrait>(
         &points,
         &witness.traces_decommitment,
         &witness.composition_decommitment,
-    );
+    )?;
 
     // Decommit FRI.
     let fri_decommitment = types::Decommitment { values: oods_poly_evals, points };
@@ -85,6 +85,9 @@ pub enum Error {
 
     #[error("evaluation domain larger than 2^64")]
     EvalDomainTooLarge,
+
+    #[error("Oods Error")]
+    OodsError(#[from] crate::oods::OodsVerifyError),
 }
 
 #[cfg(not(feature = "std"))]
@@ -104,4 +107,7 @@ pub enum Error {
 
     #[error("evaluation domain larger than 2^64")]
     EvalDomainTooLarge,
+
+    #[error("Oods Error")]
+    OodsError(#[from] crate::oods::OodsVerifyError),
 }
